@@ -53,6 +53,7 @@ add("tok_g8_punct",    "tokparam", "AtomsPunct",   5, (8, 9, 12, 72, 136),      
 add("tok_g0_bad",      "tokparam", "AtomsBad",     5, (0, 4, 64, 128),               ALL, starts=(0,))
 add("tok_g8_bad",      "tokparam", "AtomsBad",     5, (8, 136),                      NOSTABLE, starts=(0,))
 add("tok_g0_badq",     "tokparam", "AtomsBadQ",    5, (0, 128),                      ALL)
+add("tok_g0_tokch",    "tokparam", "AtomsTokCh",   5, (0, 64),                       ALL, starts=(0,))
 # ---- uriparams (ParseAllURIParams), capacities 0, 1, 2
 add("up_f64_qm",       "uriparams", "AtomsQm",     5, (64,), ALL,      pcaps=(0, 1, 2))
 add("up_f72_qm",       "uriparams", "AtomsQm",     5, (72,), NOSTABLE, pcaps=(0, 1, 2))
